@@ -40,7 +40,9 @@ ATOMS_T = ATOMS_Q + [("p", "b")]
 FL_Q = [("f",), ("h", "a", "a")]
 FL_T = FL_Q + [("g", "a")]
 VALUES = [None, Fraction(0), Fraction(3, 2), Fraction(-2), Fraction("0.0000123456")]
-RULE = ("universe: quick 4 atoms x 2 fluents (each absent / 0 / 1.5 / -2 / 0.0000123456) = 400 states, thorough 5 atoms x 3 fluents = 4000; "
+NEAR_VALUES = ["0.3", "0.30000000000000004", "1000000.0000001", "1000000.0000002"]
+RULE = ("universe: quick 4 atoms x 2 fluents (each absent / 0 / 1.5 / -2 / 0.0000123456) = 400 states, thorough 5 atoms x 3 fluents = 4000, plus 8 states whose only fluent is one of "
+        "0.3 / 0.30000000000000004 / 1000000.0000001 / 1000000.0000002; "
         "routes: problem parser (2 init orders), TrajectoryParser.parse_state, copy, copy of copy, successor by one action "
         "from a neighbouring state (add-fact or numeric update; delete-fact, which can leave an empty fact group); every ordered pair of states x every pair of routes "
         "compared with ==; every route object serialized and re-read; every copy mutated both ways. one case = one "
@@ -67,6 +69,10 @@ def universe(tier):
         sel = [a for i, a in enumerate(atoms) if mask >> i & 1]
         for vals in product(VALUES, repeat=len(fls)):
             out.append(RefState(sel, {k: v for k, v in zip(fls, vals) if v is not None}))
+    # values one unit in the last place apart: different values, hence different states
+    for sel in ([], [("r",)]):
+        for v in NEAR_VALUES:
+            out.append(RefState(sel, {("f",): Fraction(v)}))
     return out
 
 
@@ -167,11 +173,13 @@ def check_case(case):
             r.fail("public-dicts", f"route {name}: public dicts of {s1.to_json()} read as {show(obs2)}", s1.to_json(),
                    show(obs2), tags=[name])
             return r
-    # copy independence, both directions
+    # copy independence, both directions; the side that is changed was serialized before the change and must print
+    # its new content afterwards
     for direction in ("mutate-copy", "mutate-original"):
         base = build(s1)["problem"]
         cp = base.copy()
         victim, witness = (cp, base) if direction == "mutate-copy" else (base, cp)
+        before = guard(observe_state, victim)
 
         def mutate():
             for fl in victim.state_fluents.values():
@@ -181,6 +189,13 @@ def check_case(case):
             from pddl_plus_parser.models import PDDLFunction
             victim.state_fluents["(zz )"] = PDDLFunction(name="zz", signature={})
         m = guard(mutate)
+        changed = guard(observe_state, victim)
+        want_changed = RefState([], {**{k: v + 41 for k, v in s1.fluents.items()}, ("zz",): Fraction(0)})
+        if isinstance(m, Raised) or isinstance(changed, Raised) or not same_state(changed, want_changed, exact=False):
+            r.fail("serialize-after-change", f"{direction}: a state serialized as {show(before)}, then changed in place "
+                   f"(+41 on every fluent, facts cleared, fluent (zz) added), serializes as {show(changed)}, expected "
+                   f"{want_changed.to_json()}", want_changed.to_json(), show(changed), tags=[direction, "reserialize"])
+            return r
         after = guard(observe_state, witness)
         r.count("transitions")
         if isinstance(after, Raised) or not same_state(after, s1):
